@@ -339,6 +339,23 @@ func Gen(w io.Writer, seed int64, n int) error {
 					x.Buri = ev(day(death))
 				}
 			}
+			if rng.Intn(6) == 0 {
+				// three or four kinds of event in a scrambled order (an event may be out of order with a kind that is not
+				// its neighbour), sometimes with an unparsable date in between
+				offs := []int{0, 40, 2000, 2040}
+				rng.Shuffle(len(offs), func(a, b int) { offs[a], offs[b] = offs[b], offs[a] })
+				evs := [][]Date{ev(day(birth.AddDate(0, 0, offs[0]))), ev(day(birth.AddDate(0, 0, offs[1]))), ev(day(birth.AddDate(0, 0, offs[2]))), ev(day(birth.AddDate(0, 0, offs[3])))}
+				if k := rng.Intn(6); k < 4 {
+					evs[k] = ev()
+				}
+				if k := rng.Intn(8); k < 4 && len(evs[k]) > 0 && k > 0 {
+					evs[k] = ev(Date{K: "bad", T: "sometime"})
+				}
+				if len(evs[0]) > 0 { // the birth stays where the ages of the family are computed from
+					evs[0] = ev(day(birth))
+				}
+				x.Birt, x.Bapm, x.Deat, x.Buri = evs[0], evs[1], evs[2], evs[3]
+			}
 			d.People = append(d.People, x)
 			return &d.People[len(d.People)-1]
 		}
